@@ -26,6 +26,7 @@ type c12Shape struct {
 	StreamBody bool // body addressed to the stream method with valid routing
 	BadMDOpen  bool // stream open with undecodable metadata (answered by a reset)
 	MaybeOpen  bool // header-only envelope with an unknown reset type: may or may not count as an open
+	Lingering  bool // addressed to the method whose handler lingers
 	Malformed  bool
 }
 
@@ -61,6 +62,10 @@ func c12Alphabet() []c12Shape {
 		{Name: "open-route-record", Env: kit.EnvSpec{Method: sm, Record: []string{"px1", "px2"}}, ValidOpen: true},
 		{Name: "response-shaped", Env: kit.EnvSpec{Method: um, Src: sp(kit.ServerName), Dst: sp("c0"), Body: body, Wrap: true, Trailer: true}, Malformed: true},
 		{Name: "unary-garbage-body", Env: kit.EnvSpec{Method: um, Body: garbage}, Malformed: true},
+		// a second stream method whose handler reads one message and then lingers without reading
+		// (like any server-streaming handler) until the harness lets it return, just before the probe
+		{Name: "open-lingering", Env: kit.EnvSpec{Method: sp(kit.FullMethod("l"))}, ValidOpen: true, Lingering: true},
+		{Name: "body-lingering", Env: kit.EnvSpec{Method: sp(kit.FullMethod("l")), Body: body, Wrap: true}, StreamBody: true, Lingering: true},
 	}
 }
 
@@ -146,6 +151,18 @@ func execC12(t *testing.T, c C12Case) (v Verdict) {
 				}
 			}
 		})
+		linger := make(chan struct{})
+		svc.Stream("l", true, true, func(s grpcServerStream) error {
+			mu.Lock()
+			streamStarts[0]++
+			mu.Unlock()
+			_, _ = kit.RecvBytes(s)
+			select {
+			case <-linger:
+			case <-s.Context().Done():
+			}
+			return nil
+		})
 		w := kit.NewWorld(kit.Topo{Kind: "direct", Serialize: c.Ser, Clients: 1, Raw: true}, svc, nil, nil)
 		raw := w.Links[0].A
 		for _, s := range c.Seq {
@@ -153,6 +170,9 @@ func execC12(t *testing.T, c C12Case) (v Verdict) {
 			_ = raw.Write(context.Background(), e.Build(s.ID, "", "c0", kit.ServerName))
 			kit.Settle()
 		}
+		// the lingering handlers return now; whatever the read loop could not hand over meanwhile proceeds
+		close(linger)
+		kit.Settle()
 		out = append(out, raw.ReadAvailable()...)
 		// probe on a fresh id
 		pe := kit.EnvSpec{Body: &kit.Payload{Class: "lit", Lit: []byte("p")}, Wrap: true}
